@@ -222,3 +222,37 @@ def clone_faithful(ctx, rule, floor=5):
             ctx.ok(rule, key, "clone copies all %d fields one to one" % len(e[3]), loc=f.loc)
     if n < floor:
         ctx.bad(rule, rule + ":floor", "expected at least %d hand-written field-by-field Clone impls, found %d" % (floor, n), kind="anchor")
+
+
+def closure_ret_in_parent(ctx, clos):
+    """return term of a closure with its captured variables replaced by the terms the parent captured (so that a value
+    hoisted out of the closure and one computed inside it look the same); closure parameters stay Local(2..)"""
+    cf = ctx.prog.by_did.get(clos[3])
+    if cf is None:
+        return None
+    cg = ctx.guards(cf)
+    rds = [rd for rd in cg.retdefs if rd.expr is not None]
+    if len(rds) != 1:
+        return None
+    names = [c["n"] for c in cf.captures]
+    caps = {}
+    for n, t in zip(names, clos[2]):
+        caps[n] = t
+        caps["*" + n] = t
+
+    def rep(e):
+        if not isinstance(e, tuple) or not e:
+            return e
+        if e[0] == "upvar" and e[1] in caps:
+            return caps[e[1]]
+        out = []
+        for y in e:
+            if isinstance(y, tuple):
+                if y and isinstance(y[0], str):
+                    out.append(rep(y))
+                else:
+                    out.append(tuple(rep(z) if isinstance(z, tuple) else z for z in y))
+            else:
+                out.append(y)
+        return tuple(out)
+    return rep(rds[0].expr)
